@@ -263,12 +263,15 @@ Section WithOracles.
         | Some ((module, decs) :: _) =>
             match decs, out_body_of module hname with
             | [], Some OSet =>
+                let direct :=
+                  write line ;;;
+                  (if buffered then set_setbuf (fun b => dpop key_eqb b (msg_key m)) else ret tt) in
                 match dget Z.eqb (w_nodes w) (m_node m) with
                 | Some n =>
                     if buffered && n_sleeping n
                     then set_setbuf (fun b => dset key_eqb b (msg_key m) m)
-                    else write line
-                | None => write line
+                    else direct
+                | None => direct
                 end
             | [], Some OInternal =>
                 if buffered
